@@ -149,6 +149,11 @@ def usesExactly (out : List Nat) (es : List Edge) : Bool :=
   let ce := closedEdges out
   ce.length == es.length && es.all (fun e => ce.count e == es.count e) && ce.all (fun e => es.contains e)
 
+/-- no loops, and no node of the path has more than two incident edges in `es` (a k-opt move built from an
+    alternating chain of broken and joined edges keeps every degree at exactly two) -/
+def degOk (path : List Nat) (es : List Edge) : Bool :=
+  es.all (fun e => e.1 < e.2) && path.all (fun v => (es.filter (touches v)).length ≤ 2)
+
 /-- side conditions of the exact gain accounting of a k-opt move on `path` -/
 def moveOk (path : List Nat) (broken joined : List Edge) : Bool :=
   let te := tourEdges path
@@ -341,18 +346,20 @@ def hierStep (split : List Nat → Clusters) :
       let nc := split data
       hierStep split rest (cmExtend tier nc, next ++ nc.map (fun kv => (some kv.1, kv.2)))
 
-/-- `(0..max_tiers).scan(..).take_while(any cluster.len() > 2).collect()` -/
-def hier (split : List Nat → Clusters) : Nat → List (Option Nat × List Nat) → List Clusters
-  | 0, _ => []
-  | t + 1, cur =>
-    let r := hierStep split cur ([], [])
+/-- `(0..max_tiers).scan(..).take_while(any cluster.len() > 2).collect()`; `split i data` stands for the result
+    of the call `create_kmedoids(&data, 2, distance_fn)` made while building tier `i` (the calls are not a
+    function of the data alone: start medoids and hash-map orders are traced, not modelled) -/
+def hier (split : Nat → List Nat → Clusters) : Nat → Nat → List (Option Nat × List Nat) → List Clusters
+  | 0, _, _ => []
+  | t + 1, i, cur =>
+    let r := hierStep (split i) cur ([], [])
     if r.1.isEmpty then []
-    else if r.1.any (fun kv => kv.2.length > 2) then r.1 :: hier split t r.2
+    else if r.1.any (fun kv => kv.2.length > 2) then r.1 :: hier split t (i + 1) r.2
     else []
 
 /-- `create_hierarchical_kmedoids(points, max_tiers, d)` -/
-def createHier (split : List Nat → Clusters) (points : List Nat) (maxTiers : Nat) : List Clusters :=
-  if points.isEmpty then [] else hier split maxTiers [(none, points)]
+def createHier (split : Nat → List Nat → Clusters) (points : List Nat) (maxTiers : Nat) : List Clusters :=
+  if points.isEmpty then [] else hier split maxTiers 0 [(none, points)]
 
 /-! ### Spec (k-medoids) -/
 
